@@ -44,18 +44,19 @@ func (e *Elem) UnmarshalJSON(b []byte) error {
 }
 
 type Leaf struct {
-	ID      string   `json:"id"`
-	Elems   []Elem   `json:"elems"`
-	Type    string   `json:"type"`
-	Vals    []string `json:"vals"`
-	Entry   *string  `json:"entry"`
-	Key     *string  `json:"key"`
-	Choice  *string  `json:"choice"`
-	Case    *string  `json:"case"`
-	Default *string  `json:"default"`
-	Kind    string   `json:"kind"`
-	State   bool     `json:"state"`
-	Fam     []string `json:"fam"`
+	ID      string     `json:"id"`
+	Elems   []Elem     `json:"elems"`
+	Type    string     `json:"type"`
+	Vals    []string   `json:"vals"`
+	Entry   *string    `json:"entry"`
+	Key     *string    `json:"key"`
+	Choice  *string    `json:"choice"`
+	Case    *string    `json:"case"`
+	Default *string    `json:"default"`
+	Kind    string     `json:"kind"`
+	State   bool       `json:"state"`
+	Fam     []string   `json:"fam"`
+	Bad     [][]string `json:"bad"`
 }
 
 type Universe struct {
